@@ -1539,5 +1539,58 @@ mod verif_inflate_core {
         assert!(r.tables[LITLEN_TABLE].tree[t] == LONG_TREE[t], "OBL:inittree.overflow_tree_holds_the_codes_longer_than_10_bits_and_nothing_stale [C03 C18]");
     }
 
+    // ------------------------------------------------------------------
+    // init_tree, what it clears: every table it rebuilds for a new block starts from an all-invalid fast table, and
+    // -- for the literal/length AND the distance table -- a zeroed overflow tree; nothing of the previous block's
+    // tables survives (a stale tree node silently changes which symbol a long code of the next block decodes to).
+    // Code sets are all-unused (accepted: nothing to place), so the run is the clearing prologue + verdicts only;
+    // <[i16]>::fill is replaced by its std contract model (writes index 0, records call count and lengths).
+    // ------------------------------------------------------------------
+    static IF_CALLS: ::core::sync::atomic::AtomicUsize = ::core::sync::atomic::AtomicUsize::new(0);
+    static IF_LEN: ::core::sync::atomic::AtomicUsize = ::core::sync::atomic::AtomicUsize::new(0);
+    fn model_fill_rec<T: Clone>(s: &mut [T], v: T) {
+        IF_LEN.fetch_add(s.len(), ::core::sync::atomic::Ordering::Relaxed);
+        if !s.is_empty() { s[0] = v; }
+        IF_CALLS.fetch_add(1, ::core::sync::atomic::Ordering::Relaxed);
+    }
+    #[kani::proof]
+    #[kani::unwind(20)]
+    #[kani::stub(<[i16]>::fill, model_fill_rec)]
+    fn k_init_tree_clears_tables() {
+        // the starting table is concrete per body (a symbolic one makes init_tree's outer loop exit symbolic: no result in 15 min)
+        init_tree_clears_body(2);
+        init_tree_clears_body(1);
+        init_tree_clears_body(0);
+    }
+    fn init_tree_clears_body(start: u8) {
+        use ::core::sync::atomic::Ordering::Relaxed;
+        IF_CALLS.store(0, Relaxed); IF_LEN.store(0, Relaxed);
+        let mut r = DecompressorOxide::default();
+        r.block_type = start;
+        r.table_sizes = [4, 2, 19];
+        // stale content of the previous block in every table
+        let mut t = 0;
+        while t < 3 { r.tables[t].look_up[0] = 0x0123; r.tables[t].tree[0] = -7; t += 1; }
+        let mut l = LocalVars { bit_buf: 0, num_bits: 0, dist: 0, counter: 99, num_extra: 0 };
+        let a = init_tree(&mut r, &mut l);
+        const INVALID: i16 = (1 << 9) | 286;
+        if start == HUFFLEN_TABLE as u8 {
+            // an all-unused code-length code is incomplete: rejected (RFC 1951 / zlib inftrees)
+            assert!(matches!(a, Some(Action::Jump(BadTotalSymbols))), "OBL:inittree.empty_code_length_code_rejected [C04]");
+            assert!(r.tables[HUFFLEN_TABLE].look_up[0] == INVALID, "OBL:inittree.fast_table_reset_to_invalid_before_use [C03 C18]");
+        } else {
+            assert!(matches!(a, Some(Action::Jump(DecodeLitlen))) && l.counter == 0 && r.block_type == 0, "OBL:inittree.unused_litlen_and_distance_codes_accepted_both_tables_built [C03]");
+            let built = start as usize + 1; // distance first, then literal/length
+            assert!(IF_CALLS.load(Relaxed) == 2 * built && IF_LEN.load(Relaxed) == built * (FAST_LOOKUP_SIZE as usize + MAX_HUFF_TREE_SIZE),
+                "OBL:inittree.every_rebuilt_table_gets_fast_table_and_overflow_tree_cleared_in_full [C03 C04 C18]");
+            assert!(r.tables[LITLEN_TABLE].look_up[0] == INVALID && r.tables[LITLEN_TABLE].tree[0] == 0, "OBL:inittree.litlen_table_has_no_stale_entries [C03 C18]");
+            if start == DIST_TABLE as u8 {
+                assert!(r.tables[DIST_TABLE].look_up[0] == INVALID && r.tables[DIST_TABLE].tree[0] == 0, "OBL:inittree.distance_table_has_no_stale_entries [C03 C04 C18]");
+            }
+        }
+        let x: u8 = kani::any();
+        kani::cover!(start == 1 && x == 7, "COV:inittree.dynamic_block_both_tables");
+    }
+
     //@PLAYBACK@
 }
